@@ -271,7 +271,13 @@ impl Engine {
         self.known.iter().find(|k| k.sig == f.kind)
     }
 
-    fn absorb(&self, stage: &mut StageStats, ctx: CaseCtx) {
+    fn absorb(&self, stage: &mut StageStats, mut ctx: CaseCtx) {
+        // samples are for a reader: anything beyond a few KB is dropped (evidence files stay small)
+        if let Some(s) = &ctx.sample {
+            if s.to_string().len() > 4096 {
+                ctx.sample = None;
+            }
+        }
         let w = ctx.weight.max(1);
         stage.evaluations += w;
         for k in &ctx.known_hits {
